@@ -1,3 +1,4 @@
 //! Helpers shared by several check binaries.
 pub mod recorder;
 pub mod emf_util;
+pub mod uow_util;
